@@ -58,6 +58,13 @@ def lattice(tier):
         for M in ((2, 3) if tier == 'quick' else (2, 3, 5, 8))
         for (a, b) in INTERVALS
     ]
+    out += [
+        {'node_type': nt, 'quad_type': qt, 'M': M, 'interval': [a, b], 'via': 'hierarchy'}
+        for nt in NODE_TYPES
+        for qt in QUAD_TYPES
+        for M in ((2, 3) if tier == 'quick' else (2, 3, 5))
+        for (a, b) in INTERVALS
+    ]
     return out
 
 
@@ -101,6 +108,21 @@ def evaluate(case):
 
             sp = {'num_nodes': M, 'quad_type': qt, 'node_type': nt, 'tleft': a, 'tright': b, 'QI': 'IE'}
             coll = Level(problem_class=testequation0d, problem_params={}, sweeper_class=generic_implicit, sweeper_params=sp, level_params={'dt': 0.1}, level_index=0).sweep.coll
+            a, b = float(coll.tleft), float(coll.tright)
+            if not a < b:
+                fail('shape', {'tleft': a, 'tright': b})
+                return res
+        elif via == 'hierarchy':
+            # the rule held by the MIDDLE level of a three-level step (its sweeper is the coarse side of one transfer object
+            # and the fine side of the next), interval given in the sweeper parameters
+            from pySDC.core.step import Step
+            from pySDC.implementations.problem_classes.TestEquation_0D import testequation0d
+            from pySDC.implementations.sweeper_classes.generic_implicit import generic_implicit
+            from pySDC.implementations.transfer_classes.TransferMesh_NoCoarse import mesh_to_mesh as IdentityTransfer
+
+            sp = {'num_nodes': [M + 2, M, max(M - 1, 2)], 'quad_type': qt, 'node_type': nt, 'tleft': a, 'tright': b, 'QI': 'IE'}
+            S = Step({'problem_class': testequation0d, 'problem_params': {}, 'sweeper_class': generic_implicit, 'sweeper_params': sp, 'level_params': {'dt': 0.1}, 'step_params': {'maxiter': 1}, 'space_transfer_class': IdentityTransfer})
+            coll = S.levels[1].sweep.coll
             a, b = float(coll.tleft), float(coll.tright)
             if not a < b:
                 fail('shape', {'tleft': a, 'tright': b})
